@@ -71,7 +71,8 @@ class ProgProp(object):
                 s.setdefault("root", {})["conv"] = v["conv"]
             if "prio" in v:
                 s["prio"] = v["prio"]
-            r = progsim.execute(s, self.monitors, staged=self.use_staged(s))
+            mons = tuple(x for x in self.report if x != "MODEL") if self.monitors == ProgProp.monitors else self.monitors
+            r = progsim.execute(s, mons, staged=self.use_staged(s))
             from ..worker import merge_stats
             r["stats"]["runs"] = 1
             merge_stats(stats, r["stats"])
